@@ -375,9 +375,19 @@ def check_edgecells(ctx):
     where = 'src/PseudoNetCDF/camxfiles/lateral_boundary Write.py vs Memmap.py'
     # reader table: for bkey, bdim in [('WEST', ny), ...]
     rtab = {}
+    from .. import paths as _paths
     for st in iter_stmts(rfn.body):
-        if isinstance(st, ast.For) and isinstance(st.iter, ast.List) and all(isinstance(e, ast.Tuple) and len(e.elts) == 2 and const_str(e.elts[0]) for e in st.iter.elts):
-            for e in st.iter.elts:
+        if not isinstance(st, ast.For):
+            continue
+        it = st.iter
+        # a literal list of (edge, count) pairs, or zip(<edges>, <counts>) of two lists (named or literal)
+        if isinstance(it, ast.Call) and dotted(it.func) == 'zip' and len(it.args) == 2:
+            env = _paths.dominating_env(rfn, st, deep=False)
+            a_, b_ = [env.get(x.id, x) if isinstance(x, ast.Name) else x for x in it.args]
+            if isinstance(a_, (ast.List, ast.Tuple)) and isinstance(b_, (ast.List, ast.Tuple)) and len(a_.elts) == len(b_.elts):
+                it = ast.List(elts=[ast.Tuple(elts=[x, y], ctx=ast.Load()) for x, y in zip(a_.elts, b_.elts)], ctx=ast.Load())
+        if isinstance(it, ast.List) and it.elts and all(isinstance(e, ast.Tuple) and len(e.elts) == 2 and const_str(e.elts[0]) for e in it.elts):
+            for e in it.elts:
                 rtab[const_str(e.elts[0])] = norm(e.elts[1])
     rfield = {}
     for st in iter_stmts(rfn.body):
